@@ -69,7 +69,7 @@ def lua_loader(ctx: "Wtp", modname: str) -> Optional[str]:
         path = path.replace(" ", "_")
         path = re.sub(r"//+", "/", path)  # Replace multiple slashes by one
         path = re.sub(r"\.\.+", ".", path)  # Replace .. and longer by .
-        path = re.sub(r"^//+", "", path)  # Remove initial slashes
+        path = re.sub(r"^/+", "", path)  # Remove initial slashes
         path += ".lua"
 
         for prefix, exceptions in BUILTIN_LUA_SEARCH_PATHS:
